@@ -177,6 +177,25 @@ def ev_route(ns, name):
     return "ok" if not bad else "foreign or different atoms via: %s" % sorted(set(bad))[:6]
 
 
+def ev_badparse(ns, name):
+    """Error path: strings the parser must reject, parsed with this table (a failed call must leave nothing behind)."""
+    pt = ns["pt"]
+    T = pt.elements if name == "public" else _tab(ns, name)
+    out = []
+    for s in ("Xx2O", "H2O)", "Fe[999]", "5 wt% Qq // H2O@1"):
+        try:
+            pt.formula(s, table=T)
+            out.append("accepted:" + s)
+        except Exception:
+            pass
+    try:
+        pt.mix_by_weight("H2O@1", 1, "Zz", 1, table=T)
+        out.append("accepted:mix")
+    except Exception:
+        pass
+    return "rejected" if not out else ",".join(out)
+
+
 def ev_read(ns, name, g):
     T = _tab(ns, name)
     d = c09.digest_table(ns["pt"], T, 0, groups=[g])
@@ -202,7 +221,7 @@ class PrivModel(histmc.HistModel):
 
     def namespace(self):
         pt = load_pt()
-        return dict(pt=pt, _printed=c09._printed, _new=ev_new, _formula=ev_formula, _pickle=ev_pickle, _route=ev_route,
+        return dict(pt=pt, _printed=c09._printed, _new=ev_new, _formula=ev_formula, _pickle=ev_pickle, _route=ev_route, _badparse=ev_badparse,
                     _read=ev_read, _mut=ev_mut, _mutated=set())
 
     def events(self):
@@ -228,6 +247,9 @@ class PrivModel(histmc.HistModel):
             evs.append(Event("pickle:T1", "_pickle(globals(), 'T1')", True, "pickle"))
             # every lookup route (index, symbol, name, attribute, isotope string, D/T aliases) on a private and on the
             # public table, in both orders
+            # a parse that fails (with a private table, with the public one), then everything else
+            evs.append(Event("badparse:T1", "_badparse(globals(), 'T1')", True, "formula"))
+            evs.append(Event("badparse:public", "_badparse(globals(), 'public')", True, "formula"))
             evs.append(Event("route:T1", "_route(globals(), 'T1')", True, "route"))
             evs.append(Event("route:public", "_route(globals(), 'public')", True, "route"))
             self._events = evs
@@ -255,7 +277,7 @@ class PrivModel(histmc.HistModel):
             if parts[0] == "mut":
                 return n not in hist
             return True
-        if n in ("formula:T1", "pickle:T1", "route:T1"):
+        if n in ("formula:T1", "pickle:T1", "route:T1", "badparse:T1"):
             return "new:T1" in hist
         return True
 
@@ -432,6 +454,8 @@ class Oracle(object):
             return "ok:'mutated'"
         if p[0] in ("formula", "pickle", "route"):
             return "ok:'ok'"
+        if p[0] == "badparse":
+            return "ok:'rejected'"
         if p[0] == "read":
             g, t = p[1], p[2]
             src = self.can_mut if ("mut:%s:%s" % (g, t)) in hist else self.can_clean
@@ -461,6 +485,9 @@ class Oracle(object):
             elif p[0] == "formula":
                 T = "pt.elements" if p[1] == "public" else p[1]
                 lines.append("print([(a, a.table if hasattr(a,'table') else None) for a in pt.formula('Fe[56]{2+}2O3', table=%s).atoms])" % T)
+            elif p[0] == "badparse":
+                T = "pt.elements" if p[1] == "public" else p[1]
+                lines += ["try: pt.formula('Xx2O', table=%s)" % T, "except Exception as e: print('rejected:', e)"]
             elif p[0] == "route":
                 T = "pt.elements" if p[1] == "public" else p[1]
                 lines.append("print([(a, a.table) for a in (%s.name('iron'), %s.symbol('Fe'), %s[26], %s.isotope('Fe'), "
